@@ -191,3 +191,11 @@ func model_lchtimes(i unpackinfo.UnpackInfo) error {
 func envTime(sec int64) time.Time { return time.Unix(sec, 0) }
 
 func envTarResetOutput() { tOut, tOutClosed, tGzClosed, tCopied = nil, false, false, 0 }
+
+// Fault injection. Model: a budget of symbolic faults over the channel calls of one run. Native:
+// the harness loops envFaultRuns() times and run k makes the k-th underlying Write / Read fail.
+func envFaultRuns() int { return 1 }
+func envFaultArm(run, budget int) {
+	tFaultLeft = budget
+	tFaultsHit = nil
+}
